@@ -59,26 +59,37 @@ func init() {
 			if err != nil {
 				return J{"harness-error": err.Error()}
 			}
+			nh := jInt(jget(r, "nHonest"))
+			faulty, err := hp.encodeObs(jget(r, "faulty"))
+			if err != nil {
+				return J{"harness-error": err.Error()}
+			}
+			// every node validates every observation (the faulty ones first: what a rejected observation leaves
+			// behind must not affect the verdict on the next one); only accepted observations reach Outcome
+			var keptFaulty []types.AttributedObservation
+			var faultyRejected []any
+			for i, f := range faulty {
+				f.Observer = commontypes.OracleID(nh + i)
+				if verr := hp.p.ValidateObservation(context.Background(), outctx, nil, f); verr == nil {
+					keptFaulty = append(keptFaulty, f)
+				} else {
+					faultyRejected = append(faultyRejected, firstLines(verr.Error(), 2))
+				}
+			}
 			rejected := ""
 			if verr := hp.p.ValidateObservation(context.Background(), outctx, nil, types.AttributedObservation{Observation: hb, Observer: 0}); verr != nil {
 				rejected = verr.Error()
 			}
 			var aos []types.AttributedObservation
-			nh := jInt(jget(r, "nHonest"))
 			for i := 0; i < nh; i++ {
 				aos = append(aos, types.AttributedObservation{Observation: hb, Observer: commontypes.OracleID(i)})
 			}
-			faulty, err := hp.encodeObs(jget(r, "faulty"))
-			if err != nil {
-				return J{"harness-error": err.Error()}
-			}
-			for i, f := range faulty {
-				f.Observer = commontypes.OracleID(nh + i)
-				aos = append(aos, f)
-			}
+			aos = append(aos, keptFaulty...)
 			outB, err := hp.p.Outcome(context.Background(), outctx, nil, aos)
 			if err != nil {
-				outs = append(outs, resErr(errClass(err, outcomeErrClasses...), err))
+				e := resErr(errClass(err, outcomeErrClasses...), err)
+				e["_faulty_rejected"] = faultyRejected
+				outs = append(outs, e)
 				continue
 			}
 			o, err := hp.p.OutcomeCodec.Decode(outB)
@@ -146,6 +157,7 @@ func genC14(g *G) {
 				}
 			}
 			var faulty []any
+			nhRound := nh
 			for k := 0; k < nf; k++ {
 				o := J{"retire": false, "attested": "", "ts": S(w.now + uint64(g.R.Intn(1000))), "values": []any{}}
 				rm := []any{}
@@ -166,10 +178,57 @@ func genC14(g *G) {
 						upd = append(upd, J{"id": S(id), "def": w.smallDef(1+g.R.Intn(50), 1+g.R.Intn(2))})
 					}
 				}
+				if g.R.Intn(3) == 0 && len(target) > 0 {
+					// a faulty observer mimics the correct votes: the same channel ids and definitions, except that
+					// one stream's aggregator (or id) is replaced by a value with the same low bits
+					tids := make([]int, 0, len(target))
+					for id := range target {
+						tids = append(tids, id)
+					}
+					sortInts(tids)
+					upd = []any{}
+					for _, id := range tids {
+						if len(upd) >= 5 {
+							break
+						}
+						if _, ok := start[id]; ok && g.R.Intn(3) != 0 {
+							continue
+						}
+						cp := normalise(target[id]).(map[string]any)
+						sts := jArr(cp["streams"])
+						if len(sts) == 0 {
+							continue
+						}
+						st0 := jObj(sts[0])
+						if g.R.Intn(2) == 0 {
+							st0["agg"] = S(jInt(st0["agg"]) + 256)
+						} else {
+							st0["sid"] = S(jInt(st0["sid"]) + 1<<24)
+						}
+						upd = append(upd, J{"id": S(id), "def": cp})
+					}
+				}
+				if g.R.Intn(25) == 0 {
+					// malformed and stream-heavy: two definitions with thousands of streams and one with none — rejected
+					// by every correct node, and it must leave nothing behind
+					bigDef := func(base int) J {
+						st := make([]any, 6000)
+						for i := range st {
+							st[i] = J{"sid": S(base + i), "agg": "1"}
+						}
+						return J{"format": "2", "streams": st, "opts": ""}
+					}
+					upd = []any{J{"id": "900", "def": bigDef(100000)}, J{"id": "901", "def": bigDef(200000)},
+						J{"id": "902", "def": J{"format": "2", "streams": []any{}, "opts": ""}}}
+					// this observation is rejected: the round still needs 2f+1 accepted ones
+					if nhRound < 2*w.f+1 {
+						nhRound = 2*w.f + 1
+					}
+				}
 				o["removes"], o["updates"] = rm, upd
 				faulty = append(faulty, o)
 			}
-			rounds = append(rounds, J{"nHonest": nh, "ts": S(w.now), "faulty": faulty})
+			rounds = append(rounds, J{"nHonest": nhRound, "ts": S(w.now), "faulty": faulty})
 		}
 		startO := J{"stage": "production", "ts": S(w.now), "defs": mk(start), "va": []any{}, "aggs": []any{}}
 		g.Emit(J{"op": "llo.converge", "cfg": w.cfgJ(), "start": startO, "target": mk(target), "rounds": rounds, "bound": bound}, tag, "f="+S(w.f), "bound="+S(bound))
@@ -184,7 +243,13 @@ func genC14(g *G) {
 			id := 1 + g.R.Intn(40)
 			start[id] = w.smallDef(1+g.R.Intn(50), 1+g.R.Intn(3))
 		}
-		for id, d := range start {
+		sids := make([]int, 0, len(start))
+		for id := range start {
+			sids = append(sids, id)
+		}
+		sortInts(sids)
+		for _, id := range sids {
+			d := start[id]
 			switch g.R.Intn(4) {
 			case 0: // removed
 			case 1: // replaced in place
